@@ -77,7 +77,7 @@ PROPS.update({
               expected_probes=["bad-entry-in-batch-over-8"]),
     "C07": e0("C07", "Extra op: one signed field of an honest entry (in memory or decoded from its stored block) is corrupted (14 kinds); oracle: Verify fails."),
     "C08": e0("C08", "Monitors on every append/publish: cid == hash of stored bytes, read-back field equality (binary payloads, link-encrypting codec), re-encode == same cid, manifest stable and read back; plus cross-process digest comparison and golden vectors.",
-              expected_probes=["readback-binary-payload"]),
+              expected_probes=["readback-binary-payload"], cross_process=96),
     "C15": e0("C15", "Extra op: Iterator on reached (forked) logs with generated option combinations, channel capacity 0..n, consumer paced by the event loop; oracle: model iterator.",
               expected_probes=["iter-amount-zero", "iter-amount-beyond-range", "iter-related-bounds"]),
     "C16": e0("C16", "Extra op: size-bounded merges (bound 0..total+3) on scratch clones of pairs of reached logs; oracle: last min(n,total) of the model linearisation, heads, Len.",
